@@ -113,6 +113,14 @@ func runC10(c *Ctx) {
 	c.rule("nested-transformer-per-field", "the nested Transformer recorded for a field of the translated type (the one ReverseTranslate later uses for that field) is allocated in the loop iteration that records it: one object shared by several fields would leave all of them with the type and state of the last", 1)
 	c10NestedPerField(c, "nested-transformer-per-field")
 	c10ReverseSkipsUntranslated(c, "reverse-skips-untranslated")
+	c.rule("manglers-keep-no-state", "Mangle / Unmangle / ShouldRecurse of every mangler write nothing reachable from their receiver (a mangler is applied to every field, to every occurrence of a struct type and on every reload; per-call state kept in the mangler leaks from one application into the next)", 9)
+	c10ManglersKeepNoState(c, "manglers-keep-no-state")
+	c.rule("recursion-visits-every-field", "the loops of maybeRecursivelyMangle / maybeRecursivelyUnmangle end only by exhaustion or an error return (one output field that needs no work must not stop the others from being translated)", 3)
+	c10RecursionVisitsEveryField(c, "recursion-visits-every-field")
+	c.rule("index-within-length", "(shared with C16) no loop index used for reflect.Value.Index / slice indexing runs up to a capacity", 1)
+	c16IndexWithinLength(c, "index-within-length")
+	c.rule("type-elem-of-known-kind", "in the recursive reverse translation reflect.Type.Elem() is evaluated on the mangler's input field type only while building an error (its kind is unrelated to the arm)", 1)
+	c10TypeElemOfKnownKind(c, "type-elem-of-known-kind")
 	if dec := c.W.fn("sourcewrap", "transformingDecoder.Decode"); dec != nil {
 		c20Pipeline(c, dec, "("+modPath+".Decoder).Decode", "value-pipeline")
 	}
